@@ -492,6 +492,7 @@ func runHarness(ld *Loader, cfg *HarnessCfg, nworkers int, mode string, trace bo
 				ex.queries += m.oneshot.Queries
 				ex.definite += m.oneshot.Definite
 				ex.unknowns += m.oneshot.Unknowns
+				ex.retried += m.oneshot.Retries
 				ex.solveTime += m.oneshot.SolveTime
 			}
 			ex.cacheHits += m.cacheHits
